@@ -280,6 +280,13 @@ func compareGEPExpr(e *constant.ExprGetElementPtr, want types.Type, where string
 // back identically (the caller's gate).
 func SelfConsistent(pm *ir.Module, onlyGEP bool) (fs []Finding, st Stats) {
 	st.Kinds = map[string]int{}
+	defs := map[string]types.Type{}
+	for _, d := range pm.TypeDefs {
+		defs[d.Name()] = d
+	}
+	same := func(a, b types.Type) bool {
+		return types.Equal(a, b) && Denotes(a, defs, 0) == Denotes(b, defs, 0)
+	}
 	add := func(where, format string, args ...any) {
 		if len(fs) < 6 {
 			fs = append(fs, Finding{where, fmt.Sprintf(format, args...)})
@@ -315,7 +322,7 @@ func SelfConsistent(pm *ir.Module, onlyGEP bool) (fs []Finding, st Stats) {
 					st.Recomputed++
 					if p2 != nil {
 						add(where, "recomputing the type from the operands panics: %v", p2.Val)
-					} else if !types.Equal(re, got) || re.String() != got.String() {
+					} else if !same(re, got) {
 						add(where, "the IR library computes type %s from the operands, the parser attached %s", re, got)
 					}
 				}
@@ -344,7 +351,7 @@ func SelfConsistent(pm *ir.Module, onlyGEP bool) (fs []Finding, st Stats) {
 			add(path, "constant expression %T: Type() panics (cached %v, recomputed %v)", e, p, p2)
 			return true
 		}
-		if had && (!types.Equal(cached, re) || cached.String() != re.String()) {
+		if had && !same(cached, re) {
 			add(path, "constant expression %T: the parser attached type %s, the IR library computes %s", e, cached, re)
 		}
 		if isGEP {
@@ -353,4 +360,66 @@ func SelfConsistent(pm *ir.Module, onlyGEP bool) (fs []Finding, st Stats) {
 		return true
 	})
 	return
+}
+
+// Denotes spells the LLVM type that t denotes in a module whose type definitions are defs: an identified
+// struct is its name, a named non-struct type (the legacy alias form `%v = type <4 x i32>`) is whatever
+// the module defines under that name - not what the object itself holds, so a type object that carries
+// a name it has no right to is spelled differently from the type it pretends to be.
+func Denotes(t types.Type, defs map[string]types.Type, depth int) string {
+	if t == nil || depth > 12 {
+		return "?"
+	}
+	if st, ok := t.(*types.StructType); ok {
+		if st.TypeName != "" {
+			return "%" + st.TypeName
+		}
+		s := "{"
+		if st.Packed {
+			s = "<{"
+		}
+		for i, f := range st.Fields {
+			if i > 0 {
+				s += ","
+			}
+			s += Denotes(f, defs, depth+1)
+		}
+		return s + "}"
+	}
+	if n := t.Name(); n != "" {
+		if d, ok := defs[n]; ok && d != t {
+			if _, isStruct := d.(*types.StructType); !isStruct {
+				return denotesBody(d, defs, depth+1)
+			}
+		}
+	}
+	return denotesBody(t, defs, depth)
+}
+
+func denotesBody(t types.Type, defs map[string]types.Type, depth int) string {
+	switch t := t.(type) {
+	case *types.PointerType:
+		return Denotes(t.ElemType, defs, depth+1) + fmt.Sprintf(" as(%d)*", t.AddrSpace)
+	case *types.VectorType:
+		return fmt.Sprintf("<%v %d x %s>", t.Scalable, t.Len, Denotes(t.ElemType, defs, depth+1))
+	case *types.ArrayType:
+		return fmt.Sprintf("[%d x %s]", t.Len, Denotes(t.ElemType, defs, depth+1))
+	case *types.FuncType:
+		s := Denotes(t.RetType, defs, depth+1) + "("
+		for i, p := range t.Params {
+			if i > 0 {
+				s += ","
+			}
+			s += Denotes(p, defs, depth+1)
+		}
+		if t.Variadic {
+			s += ",..."
+		}
+		return s + ")"
+	case *types.IntType:
+		return fmt.Sprintf("i%d", t.BitSize)
+	case *types.FloatType:
+		return t.Kind.String()
+	}
+	return t.LLString()
 }
